@@ -257,7 +257,8 @@ PROPS = {
                         'Gen/Consts.v regenerated from the Go source by kvharness translate (minWaitScrapeTimes, relief threshold table as exact '
                         'binary64)',
                         'Go map iteration = any permutation, weightedrand.Pick = any eligible shard (Base/Sched.v)']},
-    'C08': {   'assumptions': [   'series/total/limits below 2^53 (float64 products exact in Base/Float64.v); int32/int64 overflow not modelled',
+    'C08': {   'always_cmds': [['apiwire']],
+               'assumptions': [   'series/total/limits below 2^53 (float64 products exact in Base/Float64.v); int32/int64 overflow not modelled',
                        'explorer objects are not mutated within a cycle (value semantics; validated by the differential run)',
                        'time.Now() drift during the run is far below the idle-age margins used by the generator'],
     'engines': [('coord', 1200, 24000, ['-propok', 'c08_case', '-shardsize', '100'])],
@@ -272,7 +273,7 @@ PROPS = {
             'limits, at the relief thresholds (1.1,1.4,1.6,1.8 x), tied with shard 0 on purpose; idle ages 30s..100000s vs max-idle 0/60/3600; '
             'min/max shard around the current count; explorer results present/absent/bad/unknown; failing POSTs and failing early scale request; '
             'malformed stream: min>max, max_proc=0. Membership under ALL schedules of the model (enumerated, budget 6000). non-trivial = the cycle '
-            'sent at least one target POST or requested a scale different from the current count; distinct by input',
+            'sent at least one target POST or requested a scale different from the current count; distinct by input || apiwire, in every run: the coordinator with its own HTTP client (pkg/api; the engines script Shard.APIGet/APIPost) against two sidecars of which one fails its status request on the wire - refused, hung up, 500 empty, 502 null, 503 with a JSON object, 404 HTML, an error result, a truncated answer - while its runtime info is fine: it must get no request that changes it',
     'theorems': 'C08_left_alone C08_destinations_in_sync C08_log_shapes C08_insync_iff C08_push_iff C08_full_log',
     'trusted_base': [   'model Model/Coordinator.v hand-written from rebalance.go/coordinator.go/shard.go; tie = differential run of the real '
                         'Coordinator (hook VerifRunOnce) against scripted shards through Shard.APIGet/APIPost, compared under every schedule of the '
